@@ -30,6 +30,12 @@ impl Tr for u32 {
     }
 }
 
+/// over-aligned payloads: the count is NOT the word right in front of the value (data offset = 16 / 64)
+#[repr(align(64))]
+struct Wide(u64);
+#[repr(align(16))]
+struct Wide16(u8);
+
 fn say(s: String) {
     let out = std::io::stdout();
     let mut l = out.lock();
@@ -146,6 +152,76 @@ fn main() {
             case(p, start, &|| triomphe::ArcBorrow::strong_count(&bo), &mut || {
                 let b = bo.clone_arc();
                 let n = Arc::strong_count(&b);
+                std::mem::forget(b);
+                n
+            })
+        }
+        "arc_sized_oa" => {
+            let a = Arc::new(Wide(7));
+            assert_eq!(a.0, 7);
+            let p = a.heap_ptr();
+            case(p, start, &|| Arc::strong_count(&a), &mut || {
+                let b = a.clone();
+                let n = Arc::strong_count(&b);
+                std::mem::forget(b);
+                n
+            })
+        }
+        "offset_clone_oa" => {
+            let a = Arc::new(Wide(7));
+            let p = a.heap_ptr();
+            let o: OffsetArc<Wide> = Arc::into_raw_offset(a);
+            case(p, start, &|| OffsetArc::strong_count(&o), &mut || {
+                let b = o.clone();
+                let n = OffsetArc::strong_count(&b);
+                std::mem::forget(b);
+                n
+            })
+        }
+        "offset_clone_arc_oa" => {
+            let a = Arc::new(Wide16(7));
+            let p = a.heap_ptr();
+            let o: OffsetArc<Wide16> = Arc::into_raw_offset(a);
+            case(p, start, &|| OffsetArc::strong_count(&o), &mut || {
+                let b = o.clone_arc();
+                let n = Arc::strong_count(&b);
+                std::mem::forget(b);
+                n
+            })
+        }
+        "borrow_clone_arc_oa" => {
+            let a = Arc::new(Wide(7));
+            let p = a.heap_ptr();
+            let bo = a.borrow_arc();
+            case(p, start, &|| triomphe::ArcBorrow::strong_count(&bo), &mut || {
+                let b = bo.clone_arc();
+                let n = Arc::strong_count(&b);
+                std::mem::forget(b);
+                n
+            })
+        }
+        "union_first_oa" => {
+            // first variant over-aligned, second byte-aligned
+            let a = Arc::new(Wide(7));
+            let p = a.heap_ptr();
+            let u: ArcUnion<Wide, u8> = ArcUnion::from_first(a);
+            assert!(u.is_first());
+            case(p, start, &|| ArcUnion::strong_count(&u), &mut || {
+                let b = u.clone();
+                let n = ArcUnion::strong_count(&b);
+                std::mem::forget(b);
+                n
+            })
+        }
+        "union_second_oa" => {
+            // second variant over-aligned, first word-aligned
+            let a = Arc::new(Wide16(9));
+            let p = a.heap_ptr();
+            let u: ArcUnion<u64, Wide16> = ArcUnion::from_second(a);
+            assert!(u.is_second());
+            case(p, start, &|| ArcUnion::strong_count(&u), &mut || {
+                let b = u.clone();
+                let n = ArcUnion::strong_count(&b);
                 std::mem::forget(b);
                 n
             })
